@@ -34,6 +34,7 @@ func runC03(c *core.Ctx) {
 	rulePredictorGeometry(c, "C03-R8")
 	ruleTrailerSizeLast(c)
 	ruleObjStmSlots(c, "C03-R10")
+	ruleLoopCarriedTemplates(c, "C03-R11", "pdf")
 	rulePaeth(c, "C03-R8") // PNG-predicted stream data (xref streams, user streams) must be decodable by any reader
 }
 
@@ -170,7 +171,19 @@ func ruleEmissionLiterals(c *core.Ctx, rule string) {
 					}
 				}
 			}
+			opaque := 0
+			for _, cs := range core.CallsIn(fn.Info(), fn.Decl, true) {
+				if (strings.HasSuffix(cs.Key, ".Write") || strings.HasSuffix(cs.Key, ".WriteString")) && len(cs.Call.Args) == 1 {
+					if _, isConst := constBytes(fn.Info(), cs.Call.Args[0]); !isConst {
+						opaque++
+					}
+				}
+			}
 			for i, seen := range needSeen {
+				if !seen && opaque > 0 {
+					o.Unrec("%s: no literal matching %q is written, but %d write(s) emit a buffer that is not a constant (a template filled at run time?)", fn.Key, lr.need[i], opaque)
+					continue
+				}
 				if !seen {
 					o.Fail("%s: no literal matching %q is written", fn.Key, lr.need[i])
 				}
@@ -1563,4 +1576,265 @@ func xrefWidthVars(fn *core.Func) (w2, w3 types.Object) {
 		core.Undecided("writeXRefStream: field widths not found")
 	}
 	return w2, w3
+}
+
+// ruleLoopCarriedTemplates (C03-R11, C02-R16): a buffer that lives across the
+// iterations of a loop and is emitted in every iteration is a template; every
+// field of it that is filled inside the loop must be filled on every path to
+// the emission.  A field that is filled only under a condition keeps the
+// value of an earlier iteration (the generation of the previous in-use entry
+// in a cross-reference line, say), and the emitted record no longer describes
+// the current item.
+func ruleLoopCarriedTemplates(c *core.Ctx, rule string, shortPkg string) {
+	c.Check(rule, shortPkg+"/loop-carried-templates", "a buffer reused across loop iterations and emitted in each has all its variable fields rewritten before every emission", func(o *core.Ob) {
+		pkg := c.Prog.Pkg(shortPkg)
+		scanned := 0
+		for _, fn := range c.Prog.Funcs(pkg) {
+			if fn.Decl.Body == nil || c.Prog.IsTestFile(fn.Decl.Pos()) {
+				continue
+			}
+			hasLoop := false
+			ast.Inspect(fn.Decl.Body, func(n ast.Node) bool {
+				switch n.(type) {
+				case *ast.ForStmt, *ast.RangeStmt:
+					hasLoop = true
+				}
+				return !hasLoop
+			})
+			scanned++
+			if !hasLoop {
+				continue
+			}
+			info := fn.Info()
+			g := fn.Graph()
+			for _, head := range loopHeads(g) {
+				in := naturalLoop(g, head)
+				// fills and emissions of local byte slices, by object
+				type use struct {
+					v      *core.V
+					target string
+					node   ast.Node
+				}
+				fills := map[types.Object][]use{}
+				emits := map[types.Object][]use{}
+				localBuf := func(e ast.Expr) types.Object {
+					id, ok := ast.Unparen(e).(*ast.Ident)
+					if !ok {
+						return nil
+					}
+					v, ok := info.ObjectOf(id).(*types.Var)
+					if !ok || v.IsField() || v.Pkg() == nil || v.Parent() == v.Pkg().Scope() {
+						return nil
+					}
+					switch t := v.Type().Underlying().(type) {
+					case *types.Slice:
+						if b, ok := t.Elem().Underlying().(*types.Basic); ok && b.Kind() == types.Uint8 {
+							return v
+						}
+					case *types.Array:
+						if b, ok := t.Elem().Underlying().(*types.Basic); ok && b.Kind() == types.Uint8 {
+							return v
+						}
+					}
+					return nil
+				}
+				part := func(e ast.Expr) (types.Object, string) {
+					switch x := ast.Unparen(e).(type) {
+					case *ast.SliceExpr:
+						if x.Low == nil && x.High == nil {
+							return nil, ""
+						}
+						if obj := localBuf(x.X); obj != nil {
+							return obj, strings.ReplaceAll(core.ExprStr(x), " ", "")
+						}
+					case *ast.IndexExpr:
+						if obj := localBuf(x.X); obj != nil {
+							return obj, strings.ReplaceAll(core.ExprStr(x), " ", "")
+						}
+					}
+					return nil, ""
+				}
+				whole := func(e ast.Expr) types.Object {
+					if se, ok := ast.Unparen(e).(*ast.SliceExpr); ok && se.Low == nil && se.High == nil {
+						return localBuf(se.X)
+					}
+					return localBuf(e)
+				}
+				for v := range in {
+					if v.AST == nil {
+						continue
+					}
+					switch x := v.AST.(type) {
+					case *ast.AssignStmt:
+						for _, l := range x.Lhs {
+							if obj, t := part(l); obj != nil {
+								if _, isIdx := ast.Unparen(l).(*ast.IndexExpr); isIdx {
+									fills[obj] = append(fills[obj], use{v, t, x})
+								}
+							}
+						}
+					}
+					if _, isLoop := v.AST.(*ast.RangeStmt); isLoop {
+						continue
+					}
+					if _, isLoop := v.AST.(*ast.ForStmt); isLoop {
+						continue
+					}
+					for _, cs := range core.CallsIn(info, v.AST, false) {
+						for i, a := range cs.Call.Args {
+							writes := calleeWritesArg(c, cs, i, 2)
+							if obj, t := part(a); obj != nil && writes {
+								fills[obj] = append(fills[obj], use{v, t, cs.Call})
+							}
+							if obj := whole(a); obj != nil && !writes && !strings.HasPrefix(cs.Key, "builtin.") {
+								emits[obj] = append(emits[obj], use{v, "", cs.Call})
+							}
+						}
+					}
+				}
+				// vertices of loops nested in this one: a fill there is an element-wise
+				// fill whose completeness is the inner loop's business
+				nested := map[*core.V]bool{}
+				for _, h2 := range loopHeads(g) {
+					if h2 != head && in[h2] {
+						for v := range naturalLoop(g, h2) {
+							nested[v] = true
+						}
+					}
+				}
+				for obj, fs := range fills {
+					es := emits[obj]
+					if len(es) == 0 {
+						continue
+					}
+					// loop-carried: no definition of the buffer inside the loop
+					carried := true
+					for _, d := range defVertices(g, obj) {
+						if in[d] && d != head {
+							carried = false
+						}
+					}
+					if !carried {
+						continue
+					}
+					for _, f := range fs {
+						if nested[f.v] {
+							continue
+						}
+						o.Count(1)
+						o.At(fn.Site(f.node, "fills "+f.target))
+						var same []*core.V
+						for _, f2 := range fs {
+							if f2.target == f.target {
+								same = append(same, f2.v)
+							}
+						}
+						avoid := append([]*core.V{}, same...)
+						for _, v := range g.Vs {
+							if !in[v] {
+								avoid = append(avoid, v)
+							}
+						}
+						for _, e := range es {
+							if e.v == f.v {
+								continue
+							}
+							if g.ReachFrom(head, false, core.AvoidVs(avoid...))[e.v] {
+								o.FailAt(fn.Site(f.node, ""), "%s is filled only on some paths of the iteration, but %s is emitted at %s on all of them: on the other paths the field keeps the value of an earlier iteration", f.target, obj.Name(), c.Prog.Pos(e.node.Pos()))
+								break
+							}
+						}
+					}
+				}
+			}
+		}
+		o.Count(scanned)
+	})
+}
+
+// calleeWritesArg: does the call store into the byte slice passed at
+// position i?  Known library writers, and repository functions whose
+// parameter is the target of an element store or of copy, directly or through
+// one more call.
+func calleeWritesArg(c *core.Ctx, cs core.CallSite, i int, depth int) bool {
+	switch {
+	case cs.Key == "builtin.copy":
+		return i == 0
+	case strings.HasPrefix(cs.Key, "builtin."):
+		return false
+	case cs.Key == "io.ReadFull" || cs.Key == "io.ReadAtLeast":
+		return i == 1
+	case strings.HasSuffix(cs.Key, ".Read") || strings.HasSuffix(cs.Key, ".ReadAt"):
+		return i == 0
+	case strings.Contains(cs.Key, "ndian.PutUint"):
+		return i == 0
+	case cs.Key == "encoding/hex.Encode" || cs.Key == "crypto/rand.Read" || strings.HasSuffix(cs.Key, ".XORKeyStream") || strings.HasSuffix(cs.Key, ".Decrypt") || strings.HasSuffix(cs.Key, ".Encrypt") || strings.HasSuffix(cs.Key, ".CryptBlocks"):
+		return i == 0
+	}
+	if cs.Fn == nil || depth == 0 {
+		return false
+	}
+	callee := c.Prog.FuncOf(cs.Fn)
+	if callee == nil || callee.Decl.Body == nil || callee.Decl.Type.Params == nil {
+		return false
+	}
+	var param types.Object
+	k := 0
+	for _, f := range callee.Decl.Type.Params.List {
+		for _, n := range f.Names {
+			if k == i {
+				param = callee.Info().ObjectOf(n)
+			}
+			k++
+		}
+		if len(f.Names) == 0 {
+			k++
+		}
+	}
+	if param == nil {
+		return false
+	}
+	info := callee.Info()
+	base := func(e ast.Expr) types.Object {
+		for {
+			switch x := ast.Unparen(e).(type) {
+			case *ast.IndexExpr:
+				e = x.X
+				continue
+			case *ast.SliceExpr:
+				e = x.X
+				continue
+			case *ast.Ident:
+				return info.ObjectOf(x)
+			}
+			return nil
+		}
+	}
+	found := false
+	ast.Inspect(callee.Decl.Body, func(n ast.Node) bool {
+		switch x := n.(type) {
+		case *ast.AssignStmt:
+			for _, l := range x.Lhs {
+				if _, isIdx := ast.Unparen(l).(*ast.IndexExpr); isIdx && base(l) == param {
+					found = true
+				}
+			}
+		case *ast.IncDecStmt:
+			if _, isIdx := ast.Unparen(x.X).(*ast.IndexExpr); isIdx && base(x.X) == param {
+				found = true
+			}
+		}
+		return !found
+	})
+	if found {
+		return true
+	}
+	for _, cs2 := range core.CallsIn(info, callee.Decl.Body, false) {
+		for j, a := range cs2.Call.Args {
+			if base(a) == param && calleeWritesArg(c, cs2, j, depth-1) {
+				return true
+			}
+		}
+	}
+	return false
 }
